@@ -1,16 +1,18 @@
 #!/bin/bash
 # tools/seed_sweep.sh [seed-id ...]: apply each seeded change to a scratch worktree of /repo HEAD, run the property's quick check
 # against it (VERIF_REPO), record whether it is detected; worktrees are removed afterwards.  Results: /verif/seeded/SWEEP.md
-cd /verif
+HERE="$(cd "$(dirname "${BASH_SOURCE[0]}")/.." && pwd)"
+cd "$HERE"
+export HERE
 ids="$@"; [ -z "$ids" ] && ids=$(ls seeded | grep -v SWEEP)
 run_one() {
-  id=$1; prop=${id%%-*}; wt=/tmp/sw_$id
+  id=$1; prop=${id%%-*}; wt=/tmp/sw_${id}_$$
   git -C /repo worktree add -q --detach $wt HEAD 2>/dev/null || { echo "$id worktree-failed"; return; }
-  pf=/verif/seeded/$id/patch.diff; [ -f /verif/seeded/$id/patch.rebased.diff ] && pf=/verif/seeded/$id/patch.rebased.diff
+  pf=$HERE/seeded/$id/patch.diff; [ -f $HERE/seeded/$id/patch.rebased.diff ] && pf=$HERE/seeded/$id/patch.rebased.diff
   if ! git -C $wt apply $pf >/tmp/sw_$id.apply 2>&1; then
      if ! (cd $wt && patch -p1 -F3 --no-backup-if-mismatch < $pf >>/tmp/sw_$id.apply 2>&1); then
         echo "$id PATCH-DOES-NOT-APPLY (code changed by a fix)"; git -C /repo worktree remove --force $wt; return; fi; fi
-  VERIF_REPO=$wt ./check $prop > /tmp/sw_$id.log 2>&1; ec=$?
+  (cd $HERE && VERIF_REPO=$wt ./check $prop) > /tmp/sw_$id.log 2>&1; ec=$?
   v=$(grep -c "^VIOLATION" /tmp/sw_$id.log)
   first=$(grep -m1 "failed obligation" /tmp/sw_$id.log | cut -c1-160)
   echo "$id exit=$ec violations=$v $first"
@@ -18,13 +20,13 @@ run_one() {
 }
 export -f run_one
 # one seed per property at a time (evidence/replays are per property): group by round
-rm -f /tmp/sweep_out.txt
+rm -f $HERE/sweep_out.txt /tmp/sweep_out.txt
 round=1
 remaining="$ids"
 while [ -n "$remaining" ]; do
   seen=""; next=""; batch=""
   for id in $remaining; do p=${id%%-*}; if echo "$seen" | grep -qw $p; then next="$next $id"; else seen="$seen $p"; batch="$batch $id"; fi; done
-  echo $batch | tr ' ' '\n' | grep . | xargs -P 8 -I{} bash -c 'run_one {}' | tee -a /tmp/sweep_out.txt
+  echo $batch | tr ' ' '\n' | grep . | xargs -P 8 -I{} bash -c 'run_one {}' | tee -a $HERE/sweep_out.txt /tmp/sweep_out.txt
   remaining="$next"
 done
 git -C /repo worktree prune
